@@ -96,6 +96,7 @@ def render_derive(inp):
         "source_deprecated": ["#[logos(source = [u8])]"],
         "error_attr_variant": [], "const_generic": [],
         "skip_lit_tail": ['#[logos(skip " " priority = 3)]'], "skip_lit_tail_lit": ['#[logos(skip " " "x")]'],
+        "sub_unbalanced": ['#[logos(subpattern ub = "a)|(b")]'], "sub_flag_cut": ['#[logos(subpattern ub = "a)(?i")]'],
         "dup_error_cb": ["#[logos(error(MyErr, callback = |_| MyErr, callback = |_| MyErr))]"],
         "gen_lt": [], "gen_two_lt_attr": ["#[logos(lifetime = 'a)]"], "gen_lt_none": ["#[logos(lifetime = none)]"],
         "gen_type_ok": ["#[logos(type T = u32)]"], "gen_type_lt_order": ["#[logos(type T = &'a str, lifetime = 'a)]"],
